@@ -30,8 +30,9 @@ PLAN = dict(
          "and the stated sharp bounds with calibrated constants (class=size-ratio:<pass>: core <= 12*source*(1+vars), shrunk <= 8*(1+xtors)*focused*(1+width)).  Non-trivial: every readable case; "
          "distinct = distinct (family, sequence) resp. programs",
     explanation="theorems (Props/C19.v, all closed under the global context; every pass has a bound FOR ALL PROGRAMS it accepts, and the bounds "
-                "compose): fun2core as a whole pass, all 15 term forms, lifted share_* definitions included: size_cprog <= size * (10 + 2*occ), "
-                "c_wprog <= weighted size * (12 + 3*occ), occ = distinct typed variable occurrences of a definition <= size (hence quadratic in the size "
+                "compose): fun2core as a whole pass, all 15 term forms, lifted share_* definitions and (since fix f929eb7 of /repo, when main is called) the entry point included, no hypothesis about calls of main: size_cprog <= size * (10 + 2*occ) + entry_params "
+                "(entry_params = #params of main when some call targets main, else 0; the entry point has exactly 5 + #params nodes, all but the #params argument variables are paid by the slack of main's own bound; the term is needed for arbitrary fcprog values: C19_fun2core_size_without_entry_refuted), "
+                "c_wprog <= weighted size * (12 + 3*occ) (unconditional, so the pipeline bounds are unchanged), occ = distinct typed variable occurrences of a definition <= size (hence quadratic in the size "
                 "alone), <= parameters + typed binders for scoped programs; the round-1 form with `parameters + binders` over all fcprog values is REFUTED "
                 "(ill-scoped witness); the free-variable inclusion fv([[t]]_c) <= occurrences(t) u fv(c) without fragment; the two sharing lemmas (`if` / "
                 "multi-clause `case` lift a non-leaf continuation once); uniquify preserves every size measure exactly, so focus_size_statement 4 is proved: "
